@@ -1,3 +1,4 @@
 import Audit.Tool
 import Uds.Props.C09
+import Uds.Props.C09Call
 #audit Uds.Props.C09
